@@ -60,7 +60,7 @@ def main(ctx, replay=None):
     ctx.assumptions += ["the rule table of Writer.tla is the documented one as of the pinned commit", "files print 15 significant digits (rtol 1e-12)"]
     wd = Workdir()
     try:
-        nsets = 2 if ctx.tier == "quick" else 20
+        nsets = 3 if ctx.tier == "quick" else 21
         for n in range(nsets):
             settings = {"NT": int(rng.integers(3, 7)), "DT": float(rng.choice([100, 62.5, 250])), "T_MIN": float(rng.choice([0, 150, 300])),
                         "NTV": int(rng.integers(7, 12))}
@@ -74,6 +74,10 @@ def main(ctx, replay=None):
                 system_dataset(rng, exports, str(rng.choice(fillspec.SYSTEMS[1:])), settings=settings)
             d = wd.sub(f"set{n}")
             ds.fit_pressure_window(d)
+            if n % 3 == 2:
+                # a decimal pressure step that binary floating point cannot represent, with column counts at which a naive
+                # arange(P_MIN, P_MIN + NTV * DELTA_P, DELTA_P) comes out one entry too long
+                ds.settings.update({"DELTA_P": 0.1, "NTV": int(rng.choice([6, 7, 12, 14])), "P_MIN": round(float(ds.settings["P_MIN"]) + 0.3, 1)})
             ds.settings["DELTA_P_SAMPLE"] = ds.settings["DELTA_P"] * int(rng.choice([1, 2, 3]))
             try:
                 calc = run(ds.write(d))
@@ -150,6 +154,7 @@ def main(ctx, replay=None):
                         ctx.violation(f"aliases '{lst[0][0]}' and '{kw}' of one rule write different content on base {base}", {"rule": rule},
                                       {"kw_rule": rule, "base": base, "clause": "alias"})
             overrides(ctx, calc, wd, ds)
+            repeated_entries(ctx, calc, wd)
             write_output(ctx, calc, wd, exp_rows)
             ctx.sample({"settings": st, "keys": ["%d%d" % k.voigt for k in calc.modulus_keys]}, limit=2)
     finally:
@@ -190,6 +195,48 @@ def overrides(ctx, calc, wd, ds):
     _, _, v2 = parse_table(out / "G_V_tp_gpa.txt")
     if not numpy.allclose(v2, numpy.asarray(calc.pressure_base.shear_modulus_voigt)[:-4] * consts.RY_BOHR3_TO_GPA * 10.0, rtol=1e-7, equal_nan=True):
         ctx.violation("unit override 'kbar' not honoured for G_V", {}, {"clause": "override_unit"})
+
+
+def repeated_entries(ctx, calc, wd):
+    """An output list may name one variable several times (aliases, another file name or unit): every entry is written."""
+    import copy
+    from cij.io.output import ResultsWriter
+    out = Path(tempfile.mkdtemp(dir=wd.path))
+    ctx.count({"repeated_entries": 1})
+    with cwd(out):
+        try:
+            w = ResultsWriter(calc.pressure_base)
+            w.write("bm_V")
+            w.write({"keyword": "bulk_modulus_voigt", "fname": "bulk_kbar.dat", "unit": "kbar"})
+            w.write("V")
+            w.write({"keyword": "v", "fname": "volumes_again.dat"})
+        except Exception as ex:
+            ctx.violation(f"a writer asked for the same variable twice raised {ex!r}", {}, {"clause": "repeat_raises"})
+            return
+    files = sorted(p.name for p in out.iterdir())
+    if files != ["bm_V_tp_gpa.txt", "bulk_kbar.dat", "v_tp_ang3.txt", "volumes_again.dat"]:
+        ctx.violation(f"one writer, entries [bm_V, bulk_modulus_voigt->bulk_kbar.dat, V, v->volumes_again.dat]: files {files}", {"files": files}, {"clause": "repeat_files"})
+        return
+    _, _, a = parse_table(out / "bm_V_tp_gpa.txt")
+    _, _, b = parse_table(out / "bulk_kbar.dat")
+    if not numpy.allclose(b, a * 10.0, rtol=1e-7, equal_nan=True):
+        ctx.violation("the second entry of the same variable (unit kbar) does not carry the converted values", {}, {"clause": "repeat_content"})
+    if (out / "v_tp_ang3.txt").read_bytes() != (out / "volumes_again.dat").read_bytes():
+        ctx.violation("aliases V and v written by one writer differ in content", {}, {"clause": "repeat_content"})
+    # the same through the output section of the configuration
+    saved = copy.deepcopy(calc.config["output"])
+    out2 = Path(tempfile.mkdtemp(dir=wd.path))
+    try:
+        calc.config["output"] = {"pressure_base": ["G_V", {"keyword": "shear_modulus_voigt", "fname": "shear_again.dat"}], "volume_base": ["p", "P"]}
+        with cwd(out2):
+            calc.write_output()
+        files2 = sorted(p.name for p in out2.iterdir())
+        if files2 != ["G_V_tp_gpa.txt", "p_tv_gpa.txt", "shear_again.dat"]:
+            ctx.violation(f"write_output with repeated variables in the output lists created {files2}", {"files": files2}, {"clause": "repeat_files"})
+    except Exception as ex:
+        ctx.violation(f"write_output with repeated variables raised {ex!r}", {}, {"clause": "repeat_raises"})
+    finally:
+        calc.config["output"] = saved
 
 
 def write_output(ctx, calc, wd, exp_rows):
